@@ -508,12 +508,12 @@ func Re(errBuf *strings.Builder, validName, objName, fieldName string, tv reflec
 
 	// 解析正则, 使用格式: re='\\d+'|匹配错误
 	splitIndex := strings.Index(validName, "'")
-	if splitIndex == -1 {
+	l := len(validName)
+	if splitIndex == -1 || splitIndex == l-1 { // 没有引号, 或引号为最后一个字符
 		errBuf.WriteString(GetJoinFieldErr(objName, fieldName, reErr))
 		return
 	}
 
-	l := len(validName)
 	b := make([]byte, 0, l)
 	i := splitIndex + 1
 	for ; i < l; i++ {
